@@ -18,14 +18,66 @@
 use unic_langid_impl::likelysubtags as ls;
 use unic_langid_impl::subtags::{Language, Region, Script};
 
-/// ASCII bytes packed little-endian into an integer: byte i of the text is bits 8i..8i+8
-fn unpack(v: u64) -> Option<String> {
+/// How the library packs a subtag's ASCII text into its integer form, per subtag type, learnt
+/// from the library's own *safe* conversions on a few asymmetric samples: little-endian (byte i
+/// of the text is bits 8i..8i+8: the pinned form) or big-endian over the type's width (control
+/// `s7`: a consistent change of representation must not be reported). Anything else: S5 has no
+/// independent decoding and says so instead of guessing.
+#[derive(Clone, Copy, PartialEq, Debug)]
+enum Order {
+    Le,
+    Be,
+}
+#[derive(Clone, Copy, Debug)]
+struct Conv {
+    lang: Order,
+    script: Order,
+    region: Order,
+}
+
+fn pack(text: &str, width: usize, o: Order) -> u64 {
+    let mut v: u64 = 0;
+    for (i, b) in text.bytes().enumerate() {
+        let shift = match o {
+            Order::Le => 8 * i,
+            Order::Be => 8 * (width - 1 - i),
+        };
+        v |= (b as u64) << shift;
+    }
+    v
+}
+
+fn conv() -> Option<Conv> {
+    let order = |samples: &[(&str, u64)], width: usize| -> Option<Order> {
+        for o in [Order::Le, Order::Be] {
+            if samples.iter().all(|(t, v)| pack(t, width, o) == *v) {
+                return Some(o);
+            }
+        }
+        None
+    };
+    let lang = |t: &str| -> Option<u64> { Into::<Option<u64>>::into(Language::from_bytes(t.as_bytes()).ok()?) };
+    let script = |t: &str| -> Option<u64> { Some(u32::from(Script::from_bytes(t.as_bytes()).ok()?) as u64) };
+    let region = |t: &str| -> Option<u64> { Some(u32::from(Region::from_bytes(t.as_bytes()).ok()?) as u64) };
+    Some(Conv {
+        lang: order(&[("en", lang("en")?), ("abq", lang("abq")?), ("tlhxyzab", lang("tlhxyzab")?)], 8)?,
+        script: order(&[("Latn", script("Latn")?), ("Arab", script("Arab")?)], 4)?,
+        region: order(&[("US", region("US")?), ("419", region("419")?)], 4)?,
+    })
+}
+
+static CONV: std::sync::OnceLock<Conv> = std::sync::OnceLock::new();
+
+/// ASCII bytes unpacked from an integer of `width` bytes packed in order `o`
+fn unpack_as(v: u64, width: usize, o: Order) -> Option<String> {
     let mut s = String::new();
-    let mut v = v;
     let mut ended = false;
-    for _ in 0..8 {
-        let b = (v & 0xff) as u8;
-        v >>= 8;
+    for i in 0..width {
+        let shift = match o {
+            Order::Le => 8 * i,
+            Order::Be => 8 * (width - 1 - i),
+        };
+        let b = ((v >> shift) & 0xff) as u8;
         if b == 0 {
             ended = true;
             continue;
@@ -35,7 +87,26 @@ fn unpack(v: u64) -> Option<String> {
         }
         s.push(b as char);
     }
+    if width < 8 && (v >> (8 * width)) != 0 {
+        return None;
+    }
     Some(s)
+}
+fn c() -> Conv {
+    *CONV.get().expect("byte convention decided at start-up")
+}
+fn unpack_lang(v: u64) -> Option<String> {
+    // the bare `und` key is written out by the generator as the little-endian bytes of "und"
+    if v == 0x64_6e_75 {
+        return Some("und".into());
+    }
+    unpack_as(v, 8, c().lang)
+}
+fn unpack_script(v: u32) -> Option<String> {
+    unpack_as(v as u64, 4, c().script)
+}
+fn unpack_region(v: u32) -> Option<String> {
+    unpack_as(v as u64, 4, c().region)
 }
 
 type V = (Option<u64>, Option<u32>, Option<u32>);
@@ -43,13 +114,13 @@ type Text = (String, Option<String>, Option<String>);
 
 fn value_text(v: V) -> Option<Text> {
     Some((
-        unpack(v.0?)?,
+        unpack_lang(v.0?)?,
         match v.1 {
-            Some(x) => Some(unpack(x as u64)?),
+            Some(x) => Some(unpack_script(x)?),
             None => None,
         },
         match v.2 {
-            Some(x) => Some(unpack(x as u64)?),
+            Some(x) => Some(unpack_region(x)?),
             None => None,
         },
     ))
@@ -76,21 +147,21 @@ struct Tally {
 fn probe(t: &mut Tally, table: &str, idx: usize, key: (Option<u64>, Option<u32>, Option<u32>), value: V) {
     // the key as subtags, built from its text the way a caller would build them
     let lang = match key.0 {
-        Some(k) => match unpack(k).and_then(|s| Language::from_bytes(s.as_bytes()).ok()) {
+        Some(k) => match unpack_lang(k).and_then(|s| Language::from_bytes(s.as_bytes()).ok()) {
             Some(l) => l,
             None => return, // S3 of the main check reports undecodable keys
         },
         None => Language::default(),
     };
     let script = match key.1 {
-        Some(k) => match unpack(k as u64).and_then(|s| Script::from_bytes(s.as_bytes()).ok()) {
+        Some(k) => match unpack_script(k).and_then(|s| Script::from_bytes(s.as_bytes()).ok()) {
             Some(s) => Some(s),
             None => return,
         },
         None => None,
     };
     let region = match key.2 {
-        Some(k) => match unpack(k as u64).and_then(|s| Region::from_bytes(s.as_bytes()).ok()) {
+        Some(k) => match unpack_region(k).and_then(|s| Region::from_bytes(s.as_bytes()).ok()) {
             Some(r) => Some(r),
             None => return,
         },
@@ -116,15 +187,17 @@ fn probe(t: &mut Tally, table: &str, idx: usize, key: (Option<u64>, Option<u32>,
                 "BE-MISMATCH {}[{}] key=({:?},{:?},{:?}) lookup={:?} row={:?}",
                 table,
                 idx,
-                key.0.and_then(unpack),
-                key.1.and_then(|k| unpack(k as u64)),
-                key.2.and_then(|k| unpack(k as u64)),
+                key.0.and_then(unpack_lang),
+                key.1.and_then(unpack_script),
+                key.2.and_then(unpack_region),
                 got,
                 expect
             );
         }
     }
 }
+
+
 
 fn picks(n: usize, stride: usize) -> Vec<usize> {
     let mut v: Vec<usize> = (0..n).step_by(stride.max(1)).collect();
@@ -136,6 +209,16 @@ fn picks(n: usize, stride: usize) -> Vec<usize> {
 
 fn main() {
     let stride: usize = std::env::args().nth(1).and_then(|s| s.parse().ok()).unwrap_or(1);
+    match conv() {
+        Some(c) => {
+            let _ = CONV.set(c);
+        }
+        None => {
+            // neither little- nor big-endian ASCII packing: no independent decoding here
+            println!("BE-SKIP the library's integer form of subtags is neither little- nor big-endian ASCII packing");
+            return;
+        }
+    }
     let mut t = Tally { looked_up: 0, wrong: 0 };
     let und: u64 = 0x64_6e_75; // "und", little-endian packed
     for i in picks(ls::LANG_ONLY.len(), stride) {
@@ -172,7 +255,7 @@ fn main() {
         use unic_langid_impl::verif_tables as lt;
         use unic_langid_impl::{CharacterDirection, LanguageIdentifier};
         let mut dir_probe = |table: &str, idx: usize, script: u32, want: CharacterDirection| {
-            let Some(text) = unpack(script as u64) else { return };
+            let Some(text) = unpack_script(script) else { return };
             let Ok(sc) = Script::from_bytes(text.as_bytes()) else { return };
             t.looked_up += 1;
             let li = LanguageIdentifier::from_parts(Language::default(), Some(sc), None, &[]);
@@ -194,11 +277,11 @@ fn main() {
             dir_probe("SCRIPTS_CHARACTER_DIRECTION_TTB", i, *s, CharacterDirection::TTB);
         }
         for (i, l) in lt::LANGS_CHARACTER_DIRECTION_RTL.iter().enumerate() {
-            let Some(text) = unpack(*l) else { continue };
+            let Some(text) = unpack_lang(*l) else { continue };
             let Ok(lang) = Language::from_bytes(text.as_bytes()) else { continue };
             // with an explicit right-to-left script the answer must be RTL whatever the language
             // default resolves to
-            let Some(rtl) = lt::SCRIPTS_CHARACTER_DIRECTION_RTL.first().and_then(|s| unpack(*s as u64)).and_then(|s| Script::from_bytes(s.as_bytes()).ok()) else { continue };
+            let Some(rtl) = lt::SCRIPTS_CHARACTER_DIRECTION_RTL.first().and_then(|s| unpack_script(*s)).and_then(|s| Script::from_bytes(s.as_bytes()).ok()) else { continue };
             t.looked_up += 1;
             let li = LanguageIdentifier::from_parts(lang, Some(rtl), None, &[]);
             if li.character_direction() != CharacterDirection::RTL {
